@@ -525,6 +525,19 @@ bool struct_in_memory(Type *ty) {
   return ty->size > 16 || has_memory_class(ty, 0);
 }
 
+// Register class of a struct or union for va_arg: 2 if it is passed
+// in memory; otherwise 3 + the classes of its eightbytes, where an
+// eightbyte counts 0 for INTEGER and 1 for SSE: 3, 4 for one
+// eightbyte; 5 (INTEGER, INTEGER), 6 (INTEGER, SSE), 7 (SSE, INTEGER)
+// and 8 (SSE, SSE) for two.
+int struct_reg_class(Type *ty) {
+  if (ty->size == 0 || struct_in_memory(ty))
+    return 2;
+  if (ty->size <= 8)
+    return has_flonum1(ty) ? 4 : 3;
+  return 5 + has_flonum1(ty) * 2 + has_flonum2(ty);
+}
+
 // Counts the general-purpose and the SSE registers needed to pass a
 // struct or union of at most 16 bytes: one per eightbyte it occupies.
 static void struct_regs(Type *ty, int *gp, int *fp) {
